@@ -47,7 +47,7 @@ ASSUMPTIONS = ["the router holds exactly one rule with one GET handler",
                "the leading '/' of a rule is not a literal part (Route.url returns the path without it, as the repo's tests expect)"]
 OUTSIDE = ["rule shapes other than the enumerated ones; paths longer than the stated length / wildcard texts longer than the hole",
            "float literals of more than 4-5 characters other than the enumerated prefixes + digit tails of the skeleton family",
-           "float values with more than 15 digits (reading note: from 17 digits on str(float) switches to exponent "
+           "float values with more than 15 digits (history: below 1e-4 and from 1e16 on str(float) switches to exponent notation, which url() could not write back - found by skeleton/float/tiny, fixed in /repo 0203600; formerly: "
            "notation, e.g. rule /{f:float}, path 12345678901234567 -> url '1.2345678901234568e+16' resolves to 1.23...; not a check result)",
            "rex filters (not in the property's quantifier) beyond the two enumerated shapes and hole length 3. Reading notes, "
            "not check results: (1) a rex group that does not span the whole match gives the group as value and Route.url asserts "
